@@ -18,7 +18,7 @@ import pandas as pd
 
 from .. import config, lib, record, runner, tlc
 
-NCALLS = 27
+NCALLS = 29
 NAMES = {1: 'jaccard_join(S)', 2: 'jaccard_join(B,allow_missing)', 3: 'cosine_join(B,>)', 4: 'dice_join(B)',
          5: 'overlap_join(B)', 6: 'overlap_coefficient_join(B)', 7: 'edit_distance_join(default tokenizer)',
          8: 'edit_distance_join(Q set-mode qgram)', 9: 'jaccard_join(B) rejected: threshold 1.5',
@@ -32,7 +32,9 @@ NAMES = {1: 'jaccard_join(S)', 2: 'jaccard_join(B,allow_missing)', 3: 'cosine_jo
          22: 'overlap_join(Q set-mode qgram)', 23: 'OverlapFilter(S,1).filter_candset on s',
          24: 'OverlapFilter(S,1).filter_candset on s2', 25: 'jaccard_join(Q set-mode qgram)',
          26: 'PositionFilter(qgram q=2, EDIT_DISTANCE, 1).filter_tables',
-         27: 'PositionFilter(qgram q=3, EDIT_DISTANCE, 1).filter_tables'}
+         27: 'PositionFilter(qgram q=3, EDIT_DISTANCE, 1).filter_tables',
+         28: 'PrefixFilter(Q set-mode qgram, EDIT_DISTANCE, 1).filter_tables',
+         29: 'PositionFilter(Q set-mode qgram, EDIT_DISTANCE, 1).filter_tables'}
 
 
 def fresh_objects():
@@ -115,6 +117,10 @@ def do_call(c, ssj, L, R, C, toks):
         return ssj.OverlapFilter(toks['S'], 1).filter_candset(C, 'l_id', 'r_id', L, R, 'id', 'id', 's2', 's2', **kw)
     if c == 25:
         return ssj.jaccard_join(L, R, *k, toks['Q'], 0.8, **kw)
+    if c in (28, 29):
+        # an edit-distance filter handed the SHARED set-mode q-gram tokenizer: the index must not leave it in bag mode
+        cls = ssj.PrefixFilter if c == 28 else ssj.PositionFilter
+        return cls(toks['Q'], 'EDIT_DISTANCE', 1).filter_tables(L, R, *k, **kw)
     raise ValueError(c)
 
 
